@@ -78,7 +78,11 @@ impl TryReadFromBytes for SequenceNumberSet {
     fn try_read_from_bytes(data: &mut &[u8], endianness: &Endianness) -> RtpsMessageResult<Self> {
         let base = SequenceNumber::try_read_from_bytes(data, endianness)?;
         let num_bits = u32::try_read_from_bytes(data, endianness)?;
-        if num_bits > 256 {
+        // Validity of the SequenceNumberSet (RTPS 8.3.5.5 and 9.4.2.6): numBits <= 256 and every
+        // number base..base+numBits must be a representable, non-negative sequence number.
+        // The standard asks for base >= 1 but a base of 0 is tolerated since it is used by some
+        // vendors in the ACKNACK sent before anything has been received
+        if num_bits > 256 || base < 0 || base.checked_add(num_bits as i64).is_none() {
             return Err(RtpsMessageError::InvalidData);
         }
         let number_of_bitmap_elements = num_bits.div_ceil(32) as usize; //In standard referred to as "M"
